@@ -105,6 +105,12 @@ Proof.
   unfold inner_tag. destruct (inner_lookup s k); intros E; inversion E; subst;
     [apply frame_replace_top | apply frame_refl].
 Qed.
+Lemma trans_frame s k cl c i e : inner_trans s k cl c = (i, e) -> frame i s k.
+Proof.
+  unfold inner_trans. destruct (class_ok cl); [|intros E; inversion E; subst; apply frame_refl].
+  destruct (cur_obj s k); [destruct (cond_holds c (Some o))|]; intros E; inversion E; subst;
+    first [apply frame_replace_top | apply frame_refl].
+Qed.
 Lemma mpart_objs s u pn cid i r : inner_mpart s u pn cid = (i, r) -> i_objs i = i_objs s.
 Proof.
   unfold inner_mpart. destruct (nth_error _ _); [destruct (u_open u0)|]; intros E; inversion E; reflexivity.
@@ -157,7 +163,6 @@ Proof. destruct s; reflexivity. Qed.
 
 Definition safe_op (o : op) : bool :=
   match o with
-  | OTrans _ _ _ => false
   | OGetOpen _ _ _ | OGetFinish _ | OGetAbort _ => false
   | _ => true
   end.
@@ -294,6 +299,9 @@ Proof.
   - (* untag *) cbn [step]. destruct (bucket_ok (fst k)); [|exact C].
     destruct (inner_tag (s_in s) k 0) as [i e] eqn:P.
     apply coh_invalidate; [exact C | eapply tag_frame; exact P].
+  - (* transition *) cbn [step]. destruct (bucket_ok (fst k)); [|exact C].
+    destruct (inner_trans (s_in s) k cls c) as [i e] eqn:P.
+    apply coh_invalidate; [exact C | eapply trans_frame; exact P].
   - (* mcreate *) cbn [step]. destruct (bucket_ok (fst k)); [|exact C].
     apply coh_with_inner; [exact C | reflexivity].
   - (* mpart *) cbn [step]. destruct (inner_mpart (s_in s) u pn cid) as [i r] eqn:P.
@@ -428,7 +436,7 @@ Proof.
   - destruct (bucket_ok (fst k)); [|split; [exact C | exact I]].
     destruct (inner_tag (s_in s) k 0) as [i e]. split; [apply cons_invalidate; exact C | exact I].
   - destruct (bucket_ok (fst k)); [|split; [exact C | exact I]].
-    destruct (inner_trans (s_in s) k cls c) as [i e]. split; [exact C | exact I].
+    destruct (inner_trans (s_in s) k cls c) as [i e]. split; [apply cons_invalidate; exact C | exact I].
   - destruct (bucket_ok (fst k)); split; first [exact C | exact I].
   - destruct (inner_mpart (s_in s) u pn cid) as [i r]. destruct r; split; first [exact C | exact I].
   - destruct (inner_mcomplete (s_in s) u) as [[i r] ok]. destruct r as [e|]; [|split; [exact C | exact I]].
